@@ -413,6 +413,13 @@ class HexStr(Sym):
             elif p[0] == 'neg':
                 ex.raise_builtin(ValueError, "non-hexadecimal number found in fromhex() arg (sign)")
             elif p[0] == 'fmt':
+                v = iterm(p[1])
+                if not ex.known(v >= 0):
+                    if ex.branch(v < 0, tag="hexfield.negative"):
+                        ex.raise_builtin(ValueError, "non-hexadecimal number found in fromhex() arg (sign)")
+                if not ex.known(v < 16 ** p[2]):
+                    if ex.branch(v >= 16 ** p[2], tag="hexfield.too_wide"):
+                        raise Unsupported(f"hex field wider than {p[2]} digits (value >= 16**{p[2]})")
                 if pend or p[2] % 2:
                     raise Unsupported("hex field not byte aligned")
                 v, w = iterm(p[1]), p[2] // 2
@@ -430,16 +437,9 @@ class HexStr(Sym):
 
 
 def format_hex(ex, value, width):
-    """format(value, '0{width}x') as a HexStr part list.  Modelled exactly on 0 <= value < 16**width; a negative
-    value yields a sign character (bytes.fromhex then raises ValueError, as CPython does); a larger value is
-    outside the model (Unsupported -> undecided)."""
+    """format(value, '0{width}x').  The text is exactly `width` hex digits only on 0 <= value < 16**width; the case
+    split happens when the text is turned into bytes (HexStr.to_bytes): a negative value yields a sign character,
+    on which bytes.fromhex raises ValueError as CPython does; a wider value is outside the model (undecided)."""
     if isinstance(value, int):
         return HexStr([('lit', format(value, f"0{width}x"))])
-    v = iterm(value)
-    if not ex.known(v >= 0):
-        if ex.branch(v < 0, tag="hexfield.negative"):
-            return HexStr([('neg',)])
-    if not ex.known(v < 16 ** width):
-        if ex.branch(v >= 16 ** width, tag="hexfield.too_wide"):
-            raise Unsupported(f"hex field wider than {width} digits (value >= 16**{width})")
     return HexStr([('fmt', value, width)])
